@@ -626,6 +626,16 @@ def fs_edges(chk, sm, fail, quick):
         ('scala package with dots', T, ['--lang', 'scala', '--scala-package', '..', '-o', '{d}/out.scala', '{d}/tree'], None),
         ('go package empty string', T, ['--lang', 'go', '--go-package', '', '-o', '{d}/out.go', '{d}/tree'], 'diag'),
     ]
+    # source-tree / output failures whose diagnostic must NAME the offending path (the property's second half)
+    MUST_NAME = {'dangling symlink': 'l.rs', 'dangling symlink, --follow-links': 'l.rs', 'symlink loop, --follow-links': 'loop',
+                 'nonexistent directory argument': 'nope', 'nonexistent directory argument, multi-file': 'nope',
+                 'one existing and one nonexistent directory': 'nope', 'non-UTF-8 file content': 'a.rs', 'output path is a directory': 'tree',
+                 'output path below a file': 'a.rs', 'output folder is a file, multi-file': 'a.rs'}
+    for lang_, extra_ in (('kotlin', ['--java-package', 'p']), ('swift', []), ('scala', ['--scala-package', 'p']), ('go', ['--go-package', 'p']), ('python', [])):
+        for mode_ in ('-o', '-d'):
+            nm = f'dangling symlink, --follow-links, {lang_} {mode_}'
+            jobs.append((nm, dict(T, **{'tree/c/src/l.rs': ('symlink', 'gone_away.rs')}), ['-L', '--lang', lang_] + extra_ + [mode_, '{d}/out_' + lang_, '{d}/tree'], 'diag'))
+            MUST_NAME[nm] = 'l.rs'
     # go.rs:594: uppercase_acronyms whose PascalCase form has a different byte and char length
     go_cfg = '[go]\npackage = "p"\nuppercase_acronyms = ["aé"]\n'
     go_src = '#[typeshare]\nstruct AéX { a: u8 }\n'
@@ -664,8 +674,13 @@ def fs_edges(chk, sm, fail, quick):
             else:
                 fail('fs-' + name, payload, f'{ob["cat"]} at {ob["site"]}; the model predicts {gm[0:2]}')
             continue
+        if good_cli(ob) and ob['cat'] == 'diag' and name in MUST_NAME and MUST_NAME[name] not in o['stderr']:
+            chk.violation('fs-' + name, payload, f'{name}: non-zero exit, but the diagnostic does not name the offending path ({MUST_NAME[name]})')
+            continue
         if good_cli(ob):
             chk.count('cli_fs_' + ob['cat'])
+            if ob['cat'] == 'diag' and name in MUST_NAME:
+                chk.count('cli_fs_diag_names_path')
             if expect is not None and expect != ob['cat']:
                 chk.count('cli_fs_other_than_expected')
                 chk.notes.append(f'fs edge {name!r}: {ob["cat"]} (exit {ob["rc"]}) where {expect} was expected - not a C07 matter, recorded only')
